@@ -27,6 +27,16 @@ def histograms(rng, tier):
     add("only-lengths", [0] * 257 + [9] * 29, [1] * 30)
     add("one-distance", [4] * 286, [0] * 7 + [1000])
     add("steep", [1] * 200 + [1 << 30] * 86, [1, 1 << 40])
+    # match length 258 (symbol 285, no extra bits) as rare as the rarest literal while the other lengths are common, and the farthest distance
+    # symbol rare: literal + length + distance written together are longest for exactly this combination
+    for shift in (0, 3, 6):
+        ll = [0] * 286; d = [0] * 30
+        for i in range(30): ll[i] = fib[i + shift]
+        for i in range(257, 285): ll[i] = 1 << 42
+        ll[256] = 1 << 42; ll[285] = 1
+        for i in range(29): d[i] = fib[i + 2 + shift]
+        d[29] = 1
+        add("rare-258-and-farthest-distance-%d" % shift, ll, d)
     for i in range(24 if tier == "quick" else 120):
         k = rng.choice([2, 5, 30, 286]); sh = rng.choice([0, 8, 30, 43])
         ll = [0] * 286
@@ -83,6 +93,16 @@ def run(tier, replay=None):
                 add(api="deflate", inp=data, level=0, wrap=[0, 1, 3][k % 3], table=table, dictmode=3, dct=hist_bytes(ll + d),
                     calls=[[step, [1 << 16, 50][(k // 2) % 2], flush, 1] for _ in range(len(data) // step + 2)], tail_ao=1 << 16, meta={"hist": name, "table": table}); k += 1
             add(api="deflate_stateless", inp=data, level=0, wrap=0, table=table, dictmode=3, dct=hist_bytes(ll + d), calls=[[len(data), 4000, 0, 1]], meta={"hist": name, "table": table})
+            if name.startswith("rare-258"):
+                # data that makes the encoder write its longest triple: a 258-byte match at a distance beyond 24576 followed at once by one of the
+                # rarest literals, at every bit offset (the fillers vary the pending bits)
+                big = [rng.choice(range(20, 30)) for _ in range(25000)]
+                for j in range(60):
+                    big += [rng.choice(range(20, 30)) for _ in range(3 + j % 7)]
+                    src = len(big) - 24600 - (j % 5) * 300
+                    big += big[src:src + 258] + [j % 6]
+                add(api="deflate_stateless", inp=big, level=0, wrap=0, table=table, dictmode=3, dct=hist_bytes(ll + d), calls=[[len(big), len(big) * 2, 0, 1]], meta={"hist": name, "table": table})
+                add(api="deflate", inp=big, level=0, wrap=1, table=table, dictmode=3, dct=hist_bytes(ll + d), calls=[[9000, 1 << 16, [0, 1, 2][k % 3], 1]] * (len(big) // 9000 + 1), meta={"hist": name, "table": table})
             # a long constant run first (the one-shot repeated-character fast path), then data: the custom header is then written
             # at an arbitrary bit offset through the unaligned one-shot path
             for r in ((0, 3) if tier == "quick" else (0, 1, 2, 3, 5, 7, 11)):
